@@ -80,6 +80,9 @@ class AccessMixin:
                 return "Enum"
             return self.attr_error(obj, name, node, frame)
         if isinstance(obj, External):
+            hook = getattr(self, "external_attr_hook", None)
+            if hook is not None:
+                hook(obj, name, node, frame)        # may fork on "the binding's object has no such attribute"
             return External(obj.name + "." + name)
         if isinstance(obj, Unknown):
             return Unknown("attr %s of unknown(%s)" % (name, obj.reason))
@@ -440,7 +443,9 @@ class AccessMixin:
                 raise PyRaise(Instance(self.bclasses["TypeError"], ("can assign only bytes, buffers, or iterables of ints",)),
                               node, frame.where(node))
             if isinstance(v, GenVal):
-                v = Buf(cells=v.take_all())
+                rest = v.items[v.pos:]
+                self.gen_advance(v, len(v.items), node, frame)
+                v = Buf(cells=rest)
             if isinstance(v, list):
                 v = Buf(cells=list(v))
             cells = self.buf_cells(v)
